@@ -670,32 +670,71 @@ def minimisation_rule(res, fx):
 def requeue_rule(res, fx):
     r = res.rule('label-correcting-requeue', 'in the shortest-path searches of the difference-logic solver (STPGraphManager::dfsSearch, STPModel::bellmanFord) every block that '
                  'improves the distance label of a vertex also puts that vertex back on the work list: otherwise vertices expanded from it keep too-long distances, '
-                 'consequences are missed and a negative cycle is accepted (the STP solver has no other consistency check)', floor=3)
-    n_blocks = 0
+                 'consequences are missed and a negative cycle is accepted (the STP solver has no other consistency check)', floor=2)
+    from walk import Client, Engine
+
+    class Relax(Client):
+        """one iteration of the edge loop: (lines of the label writes on this path, re-queued?)"""
+
+        def __init__(self, worklists, costly):
+            self.worklists, self.costly = worklists, set(costly)
+            self.exits = set()
+
+        def cost_derived(self, e):
+            return any(x.get('k') == 'mem' and x.get('n') == 'cost' or (x.get('k') == 'ref' and x.get('n') in self.costly) for x in [e] + list(walk(e)) if isinstance(x, dict))
+
+        def write(self, n, s):
+            aa = as_assign(n)
+            if aa and (path_of(aa[0]) or '').endswith('[]') and self.cost_derived(aa[1]):
+                return (s[0] | {n.get('ln')}, s[1])
+            return s
+
+        def on_assign(self, n, s):
+            return (self.write(n, s),)
+
+        def on_decl(self, n, s):
+            if n.get('init') is not None and self.cost_derived(n['init']):
+                self.costly.add(n['n'])
+            return (s,)
+
+        def on_call(self, n, s):
+            s = self.write(n, s)
+            if mname(n) in ('push', 'push_back', 'emplace', 'emplace_back') and (recv_path(n) or '') in self.worklists:
+                s = (s[0], True)
+            return (s,)
+
+        def on_exit(self, kind, node, s):
+            self.exits.add(s)
+
+    n_sites = 0
     for f in sorted(fx.F.values(), key=lambda f: f['name']):
         short = f['name'].split('::')[-1]
-        if short not in ('dfsSearch', 'bellmanFord') or '/stpsolver/' not in f['file']:
+        if short not in ('dfsSearch', 'bellmanFord') or '/stpsolver/' not in f['file'] or not f.get('body'):
             continue
-        for blk in (b for b in walk(f['body']) if b.get('k') == 'seq'):
-            items = [x for x in blk['c'] if isinstance(x, dict)]
-            relax = []
-            for st in items:
-                if st.get('k') != 'e':
-                    continue
-                aa = as_assign(see_through(st['e'])) if isinstance(see_through(st['e']), dict) else None
-                if aa and 'cost' in str(aa[1]) and (path_of(aa[0]) or '').endswith('[]'):
-                    relax.append(st)
-            if not relax:
-                continue
-            n_blocks += 1
-            pushes = [x for st in items for x in walk(st) if x.get('k') == 'call' and mname(x) in ('push', 'push_back', 'emplace') and (recv_path(x) or '') in ('open', 'queue', 'worklist')]
-            if pushes:
-                res.ok(r, '%s line %s: label improved and vertex re-queued' % (f['name'].replace('opensmt::', ''), relax[0].get('ln')))
+        outer = [l for l in walk(f['body']) if l.get('k') == 'loop' and l.get('kind') == 'while' and any(is_call(x, 'empty') for x in walk(l.get('cond') or {}))]
+        if len(outer) != 1:
+            raise AnalysisBroken('%s: work-list loop not found' % f['name'])
+        worklists = {recv_path(x) for x in walk(outer[0]['cond']) if is_call(x, 'empty')}
+        inner = [l for l in walk(outer[0]['body']) if l.get('k') == 'loop']
+        if len(inner) != 1:
+            raise AnalysisBroken('%s: edge loop not found' % f['name'])
+        c = Relax(worklists, [])
+        pseudo = {'body': {'k': 'loop', 'kind': 'do', 'cond': {'k': 'lit', 'v': False, 't': 'bool'}, 'body': inner[0]['body'], 'ln': inner[0].get('ln')}, 'lambdas': f.get('lambdas', [])}
+        eng = Engine(pseudo, c)
+        eng.run([(frozenset(), False)])
+        if eng.broken:
+            raise AnalysisBroken('%s: %s' % (f['name'], eng.broken))
+        lines = sorted({ln for st in c.exits for ln in st[0]})
+        for ln in lines:
+            n_sites += 1
+            lost = [st for st in c.exits if ln in st[0] and not st[1]]
+            if lost:
+                res.bad(r, 'relaxation-without-requeue:%s' % short, fx.loc(f, ln), '%s: a path through one edge improves a distance label (line %s) without putting the vertex back on the work '
+                        'list: distances of vertices already expanded from it stay too long' % (f['name'].replace('opensmt::', ''), ln))
             else:
-                res.bad(r, 'relaxation-without-requeue:%s' % short, fx.loc(f, relax[0].get('ln')), '%s improves a distance label (line %s) without putting the vertex back on the work list: '
-                        'distances of vertices already expanded from it stay too long' % (f['name'].replace('opensmt::', ''), relax[0].get('ln')))
-    if n_blocks < 3:
-        raise AnalysisBroken('label-correcting-requeue: expected >= 3 relaxation blocks in the STP searches, found %d' % n_blocks)
+                res.ok(r, '%s line %s: every path that writes the label re-queues the vertex' % (f['name'].replace('opensmt::', ''), ln))
+    if n_sites < 2:
+        raise AnalysisBroken('label-correcting-requeue: expected label writes in dfsSearch and bellmanFord, found %d' % n_sites)
 
 
 # ---------------------------------------------------------------------------------------------------------------------
